@@ -18,6 +18,7 @@ import GraphiqModel.Proofs.DMCompileH
 import GraphiqModel.Proofs.DMCompileExec
 import GraphiqModel.Proofs.DMCompileRef
 import GraphiqModel.Proofs.HilbertBridgeVec
+import GraphiqModel.Proofs.HilbertBridgeKronExec
 namespace Graphiq.C01
 open Graphiq Graphiq.PRow Graphiq.Tab
 
@@ -216,6 +217,27 @@ theorem executable_dm_model_equals_stabilizer_density (ne np nc : Nat) (det : Bo
         = .ok { ρ := some m, creg := (finalRecord nc s.writes).map fun b => if b then 1 else 0 } ∧
       Mat.EqOn m (DM.stabilizerDensity s.t) :=
   compileDM_eq_stabilizerDensity ne np nc det script ops hwf s h
+
+open Graphiq.Hilbert in
+/-- **The executable model's matrix builders are the literal numpy constructions** (`Mat.kron` = `np.kron`, `Mat.eye` =
+    `np.eye`, `reduceKron` = `functools.reduce(np.kron, ·)`), every `n`, every position, as equalities of executable
+    matrices: `get_one_qubit_gate` = `kron(kron(I, g), I)`; `get_two_qubit_controlled_gate` = `eye + K/2` with the
+    five-factor chain `K` of the branch `c < t` resp. `c > t`; `projectors_zbasis` = `reduce(kron, [P_s at q, I₂ else])`;
+    the initial state = `reduce(kron, n·[|0⟩⟨0|])`.  (The model writes them in closed form with index arithmetic.) -/
+theorem executable_builders_are_the_literal_kronecker_constructions :
+    (∀ n q (g : Mat), g.n = 2 → n ≠ 1 →
+      Mat.EqOn (DM.getOneQubitGate n q g) (Mat.kron (Mat.kron (Mat.eye (DM.pow2 q)) g) (Mat.eye (DM.pow2 (n - q - 1))))) ∧
+    (∀ n c t (g : Mat), c < n → t < n → c ≠ t → g.n = 2 →
+      ∃ m, DM.getTwoQubitControlledGate n c t g = .ok m ∧ Mat.EqOn m (literalCtrl n c t g)) ∧
+    (∀ n q, q < n → ∃ p0 p1, DM.projectorsZ n q = .ok (p0, p1) ∧
+      Mat.EqOn p0 (reduceKron ((List.range n).map fun i => if i = q then Mat.proj0 else Mat.id2)) ∧
+      Mat.EqOn p1 (reduceKron ((List.range n).map fun i => if i = q then Mat.proj1 else Mat.id2))) ∧
+    (∀ m, Mat.EqOn (⟨DM.pow2 (m + 1), fun i j => if i = 0 ∧ j = 0 then 1 else 0⟩ : Mat)
+      (reduceKron (List.replicate (m + 1) Mat.proj0))) :=
+  ⟨fun n q g hg hn => getOneQubitGate_eq_kron n q g hg hn,
+   fun n c t g hc ht hct hg => getTwoQubitControlledGate_eq_literal n c t hc ht hct g hg,
+   fun n q hq => projectorsZ_eq_literal n q hq,
+   fun m => rho0_eq_literal m⟩
 
 /-- **A reset leaves the measured qubit in |0⟩, density-matrix side**: on a qubit with a definite Z value (which the
     control of a measure-and-reset has after its measurement) the Kraus pair `|0⟩⟨0|, |0⟩⟨1|` of
